@@ -4,9 +4,9 @@
    rank-rank matrix every structural case merges) and for the full result of all four modes when fewer axes are contracted
    than self has cores (C02_tensordot_last_first / _last_last / _first_last / _first_first; the other operand may be
    contracted completely), plus the complete contraction of both operands.
-   PARTIAL: the branch "self contracted completely, other longer" (num_axes = order of self < order of other) of the four
-   modes is modelled in Model/Structure.v and tied to the code by the correspondence; its ingredients are proved
-   (C02_contractM, C02_rank_transpose, C02_concatenate, C02_rank_tensordot), the composed statement is not. *)
+   The branch "self contracted completely, other longer" (num_axes = order of self < order of other) is proved for all four
+   modes as well (C02_tensordot_*_full), so every structural case of tensordot has its value theorem.
+   PARTIAL: squeeze, build_core and the composed tt2qtt are covered by model + correspondence + side check. *)
 From Coq Require Import ZArith List Lia Arith.
 Import ListNotations.
 Require Import Ring Sums Matrix Core Chain Sweep Structure SweepProof StructProof TensordotProof TensordotModes.
@@ -95,6 +95,60 @@ Proof.
 Qed.
 Print Assumptions C02_tensordot_first_first.
 
+(* ---- self contracted completely, other longer: the four modes ---- *)
+Theorem C02_tensordot_last_first_full (R : cring) (tpart upart : list (core R)) d post x y xq yq i j fin :
+  tpart <> [] -> length upart = length tpart -> rows upart = rows tpart -> cols upart = cols tpart ->
+  linked tpart 1%nat -> linked (upart ++ d :: post) fin -> rl_of upart 1%nat = 1%nat ->
+  chain (tensordot LastFirst (length tpart) tpart (upart ++ d :: post)) (x :: xq) (y :: yq) i j =
+  dsum (rows tpart) (cols tpart) (fun zx zy =>
+     chain tpart zx zy i 0%nat * chain (upart ++ d :: post) (zx ++ x :: xq) (zy ++ y :: yq) 0%nat j).
+Proof.
+  intros H1 H2 H3 H4 H5 H6 H7. rewrite tensordot_lf_full_unfold by exact H2.
+  exact (tensordot_lf_full_value tpart upart d post x y xq yq i j fin H1 H2 H3 H4 H5 H6 H7).
+Qed.
+Print Assumptions C02_tensordot_last_first_full.
+
+Theorem C02_tensordot_first_last_full (R : cring) (tpart : list (core R)) upre d upart xq yq x y j b fint :
+  tpart <> [] -> length upart = length tpart -> rows upart = rows tpart -> cols upart = cols tpart ->
+  linked tpart fint -> rl_of tpart 1%nat = 1%nat -> linked (upre ++ d :: upart) 1%nat ->
+  length xq = length upre -> length yq = length upre ->
+  (upre = [] -> (j < rl d)%nat) -> (b < fint)%nat ->
+  chain (tensordot FirstLast (length tpart) tpart (upre ++ d :: upart)) (xq ++ [x]) (yq ++ [y]) j b =
+  dsum (rows tpart) (cols tpart) (fun zx zy =>
+     chain (upre ++ d :: upart) (xq ++ x :: zx) (yq ++ y :: zy) j 0%nat * chain tpart zx zy 0%nat b).
+Proof.
+  intros H1 H2 H3 H4 H5 H6 H7 H8 H9 H10 H11. rewrite tensordot_fl_full_unfold by exact H2.
+  exact (tensordot_fl_full_value tpart upre d upart xq yq x y j b fint H1 H2 H3 H4 H5 H6 H7 H8 H9 H10 H11).
+Qed.
+Print Assumptions C02_tensordot_first_last_full.
+
+Theorem C02_tensordot_last_last_full (R : cring) (tpart : list (core R)) upre d upart xq yq x y i j :
+  tpart <> [] -> length upart = length tpart -> rows upart = rows tpart -> cols upart = cols tpart ->
+  linked tpart 1%nat -> linked (upre ++ d :: upart) 1%nat ->
+  length xq = length upre -> length yq = length upre ->
+  (j < rl_of (upre ++ [d]) 1%nat)%nat -> (i < rl (headc tpart))%nat ->
+  chain (tensordot LastLast (length tpart) tpart (upre ++ d :: upart)) (rev (xq ++ [x])) (rev (yq ++ [y])) i j =
+  dsum (rows tpart) (cols tpart) (fun zx zy =>
+     chain tpart zx zy i 0%nat * chain (upre ++ d :: upart) (xq ++ x :: zx) (yq ++ y :: zy) j 0%nat).
+Proof.
+  intros H1 H2 H3 H4 H5 H6 H7 H8 H9 H10. rewrite tensordot_ll_full_unfold by exact H2.
+  exact (tensordot_ll_full_value tpart upre d upart xq yq x y i j H1 H2 H3 H4 H5 H6 H7 H8 H9 H10).
+Qed.
+Print Assumptions C02_tensordot_last_last_full.
+
+Theorem C02_tensordot_first_first_full (R : cring) (tpart upart : list (core R)) d upost x y xq yq b j finu fint :
+  tpart <> [] -> length upart = length tpart -> rows upart = rows tpart -> cols upart = cols tpart ->
+  linked tpart fint -> rl_of tpart 1%nat = 1%nat -> linked (upart ++ d :: upost) finu -> rl_of upart 1%nat = 1%nat ->
+  length xq = length upost -> length yq = length upost -> (b < fint)%nat -> (j < finu)%nat ->
+  chain (tensordot FirstFirst (length tpart) tpart (upart ++ d :: upost)) (rev (x :: xq)) (rev (y :: yq)) j b =
+  dsum (rows tpart) (cols tpart) (fun zx zy =>
+     chain tpart zx zy 0%nat b * chain (upart ++ d :: upost) (zx ++ x :: xq) (zy ++ y :: yq) 0%nat j).
+Proof.
+  intros H1 H2 H3 H4 H5 H6 H7 H8 H9 H10 H11 H12. rewrite tensordot_ff_full_unfold by exact H2.
+  exact (tensordot_ff_full_value tpart upart d upost x y xq yq b j finu fint H1 H2 H3 H4 H5 H6 H7 H8 H9 H10 H11 H12).
+Qed.
+Print Assumptions C02_tensordot_first_first_full.
+
 (* rank_transpose: reversed index order, transposed boundary ranks *)
 Theorem C02_rank_transpose (R : cring) (cs : list (core R)) xs ys i j fin :
   length xs = length cs -> length ys = length cs -> linked cs fin ->
@@ -175,3 +229,15 @@ Example ex_first_first_concrete :
   map (fun xq => dsum [2%nat] [1%nat] (fun zx zy => (elem [exU1; exU2] (zx ++ [xq]) (zy ++ [0%nat]) * elem [exT1; exT2] (zx ++ [1%nat]) (zy ++ [0%nat]))))
       [0%nat; 1%nat; 2%nat].
 Proof. vm_compute. reflexivity. Qed.
+(* self contracted completely: self = [exT2'] (one core, mode 2), other = [exU1; exU2] resp. [exV1; exV2] *)
+Definition exS1 : core ZIring := @mkcore ZIring 1 2 1 1 (fun _ x _ _ => (Z.of_nat (x + 1), 1%Z)).
+Example ex_full_modes :
+  (map (fun xq => elem (tensordot LastFirst 1 [exS1] [exU1; exU2]) [xq] [0%nat]) [0%nat; 1%nat; 2%nat] =
+   map (fun xq => dsum [2%nat] [1%nat] (fun zx zy => (elem [exS1] zx zy * elem [exU1; exU2] (zx ++ [xq]) (zy ++ [0%nat])))) [0%nat; 1%nat; 2%nat]) /\
+  (map (fun xq => elem (tensordot FirstLast 1 [exS1] [exV1; exV2]) [xq] [0%nat]) [0%nat; 1%nat; 2%nat] =
+   map (fun xq => dsum [2%nat] [1%nat] (fun zx zy => (elem [exV1; exV2] (xq :: zx) (0%nat :: zy) * elem [exS1] zx zy))) [0%nat; 1%nat; 2%nat]) /\
+  (map (fun xq => elem (tensordot LastLast 1 [exS1] [exV1; exV2]) [xq] [0%nat]) [0%nat; 1%nat; 2%nat] =
+   map (fun xq => dsum [2%nat] [1%nat] (fun zx zy => (elem [exS1] zx zy * elem [exV1; exV2] (xq :: zx) (0%nat :: zy)))) [0%nat; 1%nat; 2%nat]) /\
+  (map (fun xq => elem (tensordot FirstFirst 1 [exS1] [exU1; exU2]) [xq] [0%nat]) [0%nat; 1%nat; 2%nat] =
+   map (fun xq => dsum [2%nat] [1%nat] (fun zx zy => (elem [exS1] zx zy * elem [exU1; exU2] (zx ++ [xq]) (zy ++ [0%nat])))) [0%nat; 1%nat; 2%nat]).
+Proof. vm_compute. repeat split. Qed.
